@@ -15,3 +15,7 @@ pub mod tiny_lfu;
 mod c10;
 #[cfg(kani)]
 mod c11;
+#[cfg(kani)]
+mod c09;
+#[cfg(kani)]
+mod c16;
